@@ -39,7 +39,7 @@ _tree_hash = None
 
 
 def sh(cmd, **kw):
-    return subprocess.run(cmd, stdout=subprocess.PIPE, stderr=subprocess.STDOUT, universal_newlines=True, **kw)
+    return subprocess.run(cmd, stdout=subprocess.PIPE, stderr=subprocess.STDOUT, universal_newlines=True, errors='replace', **kw)
 
 
 def hash_files(paths):
@@ -150,6 +150,56 @@ def run_proc(cmd, log, timeout, env=None):
         return r.returncode, r.stdout, False
     except subprocess.TimeoutExpired as ex:
         return -9, (ex.stdout or '') if isinstance(ex.stdout, str) else '', True
+
+
+# ------------------------------------------------------------------------------------------------
+# evidence only: which lines of the anchored headers did the workload execute (gcov on a separate -O0 --coverage build)
+# ------------------------------------------------------------------------------------------------
+def header_coverage(prop, items, timeout=600):
+    """items: list of dict(src=..., defs=[...], args=[...], n=int, seed=int, stubs=bool).  Returns a dict for the evidence file."""
+    import tempfile
+    base = os.path.join(CACHE, 'cov', prop)
+    if os.path.isdir(base): shutil.rmtree(base)
+    agg, key_hits, notes = {}, {}, []
+    def one(idx_item):
+        idx, it = idx_item
+        d = os.path.join(base, '%02d' % idx); os.makedirs(d)
+        flags = [f for f in COMMON] + ['-O0', '--coverage'] + (['-I' + ROOT + '/stubs'] if it.get('stubs') else []) + ['-D' + x for x in it['defs']]
+        exe = os.path.join(d, 'mon')
+        r = sh(['g++'] + flags + [os.path.join(HARN, it['src'])] + ([model_obj()] if it.get('model', True) else []) + ['-o', exe], cwd=d)
+        if r.returncode != 0: return idx, None, 'coverage build failed for ' + it['src']
+        cmd = [exe, '--seed', str(it.get('seed', 1)), '--n', str(it['n']), '--out', os.path.join(d, 'log.jsonl')] + it.get('args', [])
+        rc, out, to = run_proc(cmd, None, timeout)
+        g = sh('gcov --json-format --stdout ' + ' '.join(glob.glob(os.path.join(d, '*.gcda'))), shell=True, cwd=d) if glob.glob(os.path.join(d, '*.gcda')) else None
+        if not g or g.returncode != 0: return idx, None, 'gcov produced nothing for ' + it['src']
+        try: data = json.loads(g.stdout)
+        except ValueError: return idx, None, 'gcov output unparsable'
+        return idx, data, None
+    with ThreadPoolExecutor(NCPU) as ex:
+        results = list(ex.map(one, list(enumerate(items))))
+    src_cache = {}
+    for idx, data, err in results:
+        if err: notes.append(err); continue
+        for f in data.get('files', []):
+            fn = f['file']
+            if not fn.startswith(REPO + '/include/'): continue
+            rel = fn[len(REPO) + 1:]
+            a = agg.setdefault(rel, {})
+            for l in f['lines']:
+                a[l['line_number']] = a.get(l['line_number'], 0) + l['count']
+            if rel not in src_cache:
+                try: src_cache[rel] = open(fn, errors='replace').read().split('\n')
+                except OSError: src_cache[rel] = []
+    out = {}
+    for rel, lines in sorted(agg.items()):
+        hit = sum(1 for c in lines.values() if c > 0)
+        unhit = sorted(k for k, c in lines.items() if c == 0)
+        out[rel] = {'lines_executed': hit, 'lines_instrumented': len(lines), 'first_unexecuted_lines': unhit[:8]}
+        txt = src_cache.get(rel, [])
+        for ln, c in lines.items():
+            if 0 < ln <= len(txt) and re.search(r'approxSqrtInv\(|MANIF_THROW|MANIF_CHECK|MANIF_ASSERT', txt[ln - 1]) and 'define' not in txt[ln - 1]:
+                key_hits['%s:%d: %s' % (rel, ln, txt[ln - 1].strip()[:70])] = c
+    return {'tool': 'gcov (separate -O0 --coverage build of the same monitors, %d small workloads)' % len(items), 'headers': out, 'key_line_hits': key_hits, 'notes': notes}
 
 
 # ------------------------------------------------------------------------------------------------
